@@ -539,7 +539,7 @@ class SimCastFormulaResult(Contract):
     name = f"{SIM}._cast_formula_result"
     prop = ("C01",)
     top_level = True
-    cases = ("array-right-dtype", "array-other-dtype", "scalar", "enum-not-encoded", "enum-encoded")
+    cases = ("array-right-dtype", "array-other-dtype", "array-bool", "scalar", "enum-not-encoded", "enum-encoded")
     descr = ("a formula result is brought to the variable's declared type: enum values are encoded, scalars broadcast to the "
              "population, other dtypes cast; an array already of the declared dtype is returned as it is")
     inline = (f"{SIM}.get_variable_population",)
@@ -563,7 +563,9 @@ class SimCastFormulaResult(Contract):
         elif case == "enum-not-encoded":
             value = nparr.NArr(n, lambda i: Sym(F(B._z(i))), "str", "names")
         else:
-            value = nparr.NArr(n, lambda i: Sym(F(B._z(i))), "float" if case == "array-right-dtype" else "int", "result")
+            BF = z3.Function(ctx.fresh_name("BOOLS"), z3.IntSort(), z3.BoolSort())
+            value = nparr.NArr(n, lambda i: Sym(F(B._z(i))), "float" if case == "array-right-dtype" else "int", "result") \
+                if case != "array-bool" else nparr.NArr(n, lambda i: Sym(BF(B._z(i))), "bool", "result")
         return {"self": w.sim, "value": value, "variable": w.var, "__w": w, "__case": case}
 
     @staticmethod
